@@ -22,6 +22,12 @@ def run(tier, replay):
                 jobs.append((exe, ["rt", T, 0, 113, 1, "rot", "twice"]))
             for T in (2, 4):
                 jobs.append((exe, ["rt", T, 0, 113, 3, "all"]))
+        # chunks of 256 blocks (4 KiB) and hash windows of 16 KiB: per-chunk arithmetic (counter advanced by a whole refill,
+        # offsets beyond one byte) behaves differently from the 2-block chunks above; streams re-used for a later chunk
+        exe256 = c01.e2e_exe(256, 256)
+        mid = [(1, 2 * 4096 + 100), (2, 4 * 4096 + 5)] if tier == "quick" else [(1, 2 * 4096 + 100), (2, 4 * 4096 + 5), (3, 6 * 4096), (4, 5 * 4096 - 1)]
+        for T, n in mid:
+            jobs.append((exe256, ["rt", T, n, n, 1, "all"]))
         with cf.ThreadPoolExecutor(8) as ex:
             parts = list(ex.map(lambda j: wv.record(res, PID + "/j%d" % j[0], [j[1]]), enumerate(jobs)))
         events = []
